@@ -24,6 +24,21 @@ def ufun(name, *sorts):
 def str_method(E, m, args, kwargs):
     me = args[0]
     rest = args[1:]
+    if m == 'join' and _conc(me) and isinstance(me.v, bytes):
+        # bytes join: an uninterpreted concatenation of bytes values (TypeError for a str piece)
+        items = E.concrete_iter(rest[0])
+        if not all(ops.known_type(E, x) == 'bytes' for x in items):
+            raise PyRaise(VExc('TypeError', [VC('sequence item: expected a bytes-like object')]))
+        if me.v != b'':
+            raise Unsupported('bytes.join with a separator')
+        cat = z3.Function('bytes_cat', Val, Val, Val)
+        acc = z3.Const('bytes_empty', Val)
+        for x in items:
+            acc = cat(acc, E.to_val(x))
+        from .engine import VO_term
+        r = VO_term(acc, E.fresh('bcat'))
+        E.tfacts[(r.name, 'bytes')] = True
+        return r
     if _conc(me) and all(_conc(a) for a in rest) and m != 'join':
         try:
             r = getattr(me.v, m)(*[a.v for a in rest])
